@@ -437,3 +437,22 @@ def run(ctx, rep):
                   f"{name}: the tip matrices must get exactly one extra column of ones on the last axis (index state_count = unknown) and tip states must index that axis")
     if n < 2:
         raise AnalysisError('tip-state kernels not found')
+    # C02.W — merging identical columns into weighted patterns: the weight multiplies the whole per-site log-likelihood (log term and log scalers) in every kernel
+    rep.rule('C02.W', "in every pruning kernel the pattern weight multiplies the complete per-site log-likelihood — the log of the root sum and the log scalers — and the sum runs over sites")
+    nk = 0
+    for name, f in sorted(lm.functions.items()):
+        if not name.startswith('calculate_treelikelihood'):
+            continue
+        try:
+            k = extract(f)
+        except Unsupported as u:
+            rep.undecided('C02.W', name, where(lm, f), str(u))
+            continue
+        nk += 1
+        r = k.ret
+        ok = bool(r.get('weights_multiply_log')) and r.get('outer_axis') == -1 and (k.scaler is None or (r.get('scaler_term') is not None and bool(r.get('scaler_inside_weighted_sum'))))
+        rep.check('C02.W', f"{name}::weights-multiply-the-whole-site-term", ok, where(lm, f), {'scaler_term': r.get('scaler_term'), 'added_after_weights': r.get('term_added_after_weights')},
+                  f"{name}: a column that occurs w times must contribute w times its complete log-likelihood; here part of the per-site term "
+                  f"({r.get('term_added_after_weights') or 'the log term'}) escapes the multiplication by the pattern weights, so compressing identical columns changes the result")
+    if nk < 5:
+        raise AnalysisError(f"only {nk} pruning kernels analysed")
